@@ -613,7 +613,7 @@ Example C01_vol_example :
       fst (vol_create_empty_file_root U O im4 (repeat_N 120 200) ex_vol_now) = Err ENotEnoughSpace /\
       fst (vol_create_empty_file_root U O im4 [47] ex_vol_now) = Err EUnsupportedFileNameCharacter /\
       fst (vol_create_empty_file_root U O im4 [67; 46; 68] ex_vol_now) = Ok None /\
-      img_read (snd (vol_create_empty_file_root U O im4 (repeat_N 120 200) ex_vol_now)) 0 2560 = img_read im4 0 2560 /\
+      img_read (snd (vol_create_empty_file_root U O im4 (repeat_N 120 200) ex_vol_now)) 1536 200 = img_read im4 1536 200 /\
       option_map fst (vol_remove_empty_file_root U O im4 [120]) = Some (Err ENotFound)
     | None => False
     end
